@@ -30,6 +30,8 @@ def fill_inplace(m, b, ci, v, rng, top=True):
     md = b.schema[ci]
     ow = False
     slots = []
+    # a nested message is, four times in ten, given container content only (no scalar is assigned, so nothing marks it)
+    only_containers = (not top) and rng.random() < 0.4
     for i, f in enumerate(md.fields):
         raw = "N" if f.optional else "P"
         x = v[2].get(i)
@@ -42,7 +44,7 @@ def fill_inplace(m, b, ci, v, rng, top=True):
                 raw = bpgen.term(x)
             elif f.ty == "message" and not f.wraps and f.kind.startswith("u") and x[0] == "c" and not f.repeated:
                 raw = fill_inplace(getattr(m, f.name), b, int(f.kind[1:]), x, rng, False)
-            elif f.ty not in ("message", "map") and not f.repeated and (not top or rng.random() < 0.15):
+            elif f.ty not in ("message", "map") and not f.repeated and not only_containers and (not top or rng.random() < 0.15):
                 setattr(m, f.name, bpgen.to_py(x, b.classes, f.ty))      # an assignment: this instance becomes present
                 raw = bpgen.term(x)
                 ow = True
